@@ -189,7 +189,27 @@ type wcase struct {
 	MaxH int   `json:"max_h"`
 	MinW int   `json:"min_w,omitempty"`
 	MinH int   `json:"min_h,omitempty"`
+	// Then: the same widget instances are drawn again, frame after frame,
+	// under other constraints; lists are scrolled and lose items in between
+	Then []wstep `json:"then_redrawn,omitempty"`
 }
+
+// wstep is one later frame of the same widgets.
+type wstep struct {
+	MaxW   int `json:"max_w"`
+	MaxH   int `json:"max_h"`
+	Scroll int `json:"lists_scrolled_by,omitempty"`
+	// Keep >= 0: every list's builder only has its first Keep items left
+	Keep int `json:"lists_keep_items"`
+}
+
+type listState struct {
+	d     *list.Dynamic
+	limit int
+}
+
+// lists built for the case in progress (a worker runs one case at a time)
+var curLists []*listState
 
 // recorder wraps a child widget and judges what it returns against what it
 // was given.
@@ -263,12 +283,15 @@ func build(n wnode, log *[]string, wrap bool) vxfw.Widget {
 		for i := range n.Children {
 			kids[i] = build(n.Children[i], log, true)
 		}
+		ls := &listState{limit: len(kids)}
 		d := &list.Dynamic{Builder: func(i uint, cursor uint) vxfw.Widget {
-			if int(i) >= len(kids) {
+			if int(i) >= len(kids) || int(i) >= ls.limit {
 				return nil
 			}
 			return kids[i]
 		}, DrawCursor: n.Kind == "list-cursor", Gap: n.Gap}
+		ls.d = d
+		curLists = append(curLists, ls)
 		if n.Cursor > 0 && n.Cursor < len(kids) {
 			d.SetCursor(uint(n.Cursor))
 		}
@@ -365,26 +388,51 @@ func runWidget(w *harness.W, c wcase, sample bool) {
 	defer w.End()
 	w.Case(string(cj))
 	var log []string
+	curLists = nil
 	wd := build(c.Tree, &log, true)
-	ctx := vxfw.DrawContext{Min: vxfw.Size{Width: uint16(c.MinW), Height: uint16(c.MinH)}, Max: vxfw.Size{Width: uint16(c.MaxW), Height: uint16(c.MaxH)}, Characters: vaxis.Characters}
-	var s vxfw.Surface
-	var err error
-	val, stack, panicked := harness.Recover(func() { s, err = wd.Draw(ctx) })
-	if panicked {
-		w.ViolationStack("panic:"+harness.PanicKey(val, stack), fmt.Sprintf("%s.Draw panicked under max %dx%d with content %q: %s", c.Tree.Kind, c.MaxW, c.MaxH, c.Tree.Content, val), c, val, "no panic", stack)
-		return
-	}
-	w.Count("draws", 1)
-	w.Distinct("widget_kinds", c.Tree.Kind)
-	if err != nil {
-		w.Count("draw_errors", 1)
-		return
-	}
-	walk(s, &log, 0)
-	if len(log) > 0 {
-		kv := strings.SplitN(log[0], "|", 2)
-		w.Violation(kv[0], kv[1]+fmt.Sprintf(" (root max %dx%d)", c.MaxW, c.MaxH), c, kv[1], "size <= max, buffer = width*height, centred child inside with margins equal within one cell")
-		return
+	frames := append([]wstep{{MaxW: c.MaxW, MaxH: c.MaxH, Keep: -1}}, c.Then...)
+	for fi, st := range frames {
+		if fi > 0 {
+			if !legal(c.Tree, st.MaxW, st.MaxH) || cellsNeeded(c.Tree, st.MaxW, st.MaxH) > 200000 {
+				continue
+			}
+			for _, ls := range curLists {
+				if st.Keep >= 0 && st.Keep < ls.limit {
+					ls.limit = st.Keep
+				}
+				if st.Scroll != 0 {
+					ls.d.SetPendingScroll(st.Scroll)
+				}
+			}
+			w.Count("redraws_of_the_same_widgets", 1)
+		}
+		ctx := vxfw.DrawContext{Min: vxfw.Size{Width: uint16(c.MinW), Height: uint16(c.MinH)}, Max: vxfw.Size{Width: uint16(st.MaxW), Height: uint16(st.MaxH)}, Characters: vaxis.Characters}
+		if c.MinW > st.MaxW || c.MinH > st.MaxH {
+			ctx.Min = vxfw.Size{}
+		}
+		var s vxfw.Surface
+		var err error
+		val, stack, panicked := harness.Recover(func() { s, err = wd.Draw(ctx) })
+		when := ""
+		if fi > 0 {
+			when = fmt.Sprintf(" (frame %d of the same widgets)", fi+1)
+		}
+		if panicked {
+			w.ViolationStack("panic:"+harness.PanicKey(val, stack), fmt.Sprintf("%s.Draw panicked under max %dx%d with content %q%s: %s", c.Tree.Kind, st.MaxW, st.MaxH, c.Tree.Content, when, val), c, val, "no panic", stack)
+			return
+		}
+		w.Count("draws", 1)
+		w.Distinct("widget_kinds", c.Tree.Kind)
+		if err != nil {
+			w.Count("draw_errors", 1)
+			return
+		}
+		walk(s, &log, 0)
+		if len(log) > 0 {
+			kv := strings.SplitN(log[0], "|", 2)
+			w.Violation(kv[0], kv[1]+fmt.Sprintf(" (root max %dx%d)%s", st.MaxW, st.MaxH, when), c, kv[1], "size <= max, buffer = width*height, centred child inside with margins equal within one cell")
+			return
+		}
 	}
 	if sample {
 		w.Sample(c)
@@ -775,7 +823,12 @@ func (c check) Run(w *harness.W, b harness.Batch) {
 							n.Children = []wnode{{Kind: "text-soft", Content: cn}, {Kind: "text-hard", Content: "lines"}, {Kind: "rich-soft", Content: cn}}
 							n.Cursor = 1
 						}
-						runWidget(w, wcase{Tree: n, MaxW: W, MaxH: H}, k%997 == 0)
+						wc := wcase{Tree: n, MaxW: W, MaxH: H}
+						if k%2 == 0 && cn != "huge" && cn != "hugelines" && cn != "longword" {
+							// the next frames: fewer rows, fewer columns, more of both
+							wc.Then = []wstep{{MaxW: W, MaxH: H / 2, Keep: -1}, {MaxW: W / 2, MaxH: H / 2, Keep: -1, Scroll: 3}, {MaxW: W, MaxH: H, Keep: 1, Scroll: -2}}
+						}
+						runWidget(w, wc, k%997 == 0)
 					}
 				}
 			}
@@ -787,6 +840,19 @@ func (c check) Run(w *harness.W, b harness.Batch) {
 			c := wcase{Tree: t, MaxW: small[r.Intn(len(small))], MaxH: small[r.Intn(len(small))]}
 			if r.Intn(4) == 0 {
 				c.MinW, c.MinH = r.Intn(c.MaxW+1), r.Intn(c.MaxH+1)
+			}
+			for k := r.Intn(5); k > 0; k-- {
+				st := wstep{MaxW: small[r.Intn(len(small))], MaxH: small[r.Intn(len(small))], Keep: -1}
+				if r.Intn(2) == 0 {
+					st.MaxW = c.MaxW
+				}
+				if r.Intn(3) == 0 {
+					st.Scroll = r.Range(-8, 8)
+				}
+				if r.Intn(4) == 0 {
+					st.Keep = r.Intn(4)
+				}
+				c.Then = append(c.Then, st)
 			}
 			runWidget(w, c, i == 0)
 		}
